@@ -298,7 +298,38 @@ def r5_remote_base_url(ctx, rep):
     rep.ob("dict2obj passes the same base url to nested entities", ok, "", py.nloc(d2o))
 
 
+def r6_fresh_objects_and_node_urls(ctx, rep):
+    py = ctx.py
+    d2o = py.func("external_project.dict2obj")
+    rets = [ast.unparse(r.value) for r in ast.walk(d2o) if isinstance(r, ast.Return) and r.value is not None]
+    asg = [n for n in ast.walk(d2o) if isinstance(n, ast.Assign) and ast.unparse(n.targets[0]) == "extObj"]
+    ok = set(rets) <= {"extDict", "extObj"} and len(asg) == 1 and "ENTITIES[obj_type](name, external_url, parent)" in ast.unparse(asg[0].value)
+    rep.ob("dict2obj builds one fresh object per exported entity", ok,
+           "every entry of modules.json becomes its own object carrying its own URL" if ok else
+           f"dict2obj returns {sorted(set(rets))}: an entry can be replaced by a previously registered object of the same "
+           f"name, so a type/procedure that exists in two modules of the other project is linked to the wrong page",
+           py.nloc(d2o))
+    ok = "project_list.append(extObj)" in ast.unparse(d2o)
+    rep.ob("every external object is registered in its project list", ok, "", py.nloc(d2o))
+    # graph nodes: URLs of external entities (remote or local path) are used as they are
+    bn = py.func("BaseNode.__init__")
+    raw = None
+    for n in ast.walk(bn):
+        if isinstance(n, ast.If) and any(isinstance(a, ast.Assign) and ast.unparse(a.value) == "self.url"
+                                         and "URL" in ast.unparse(a.targets[0]) for a in n.body):
+            raw = n
+    if raw is None:
+        raise AnalysisError("BaseNode.__init__: raw-URL branch not found")
+    t = ast.unparse(raw.test)
+    ok = "external_url" in t and "fromstr" in t
+    rep.ob("graph node URL of an external entity is not re-based", ok,
+           "`self.fromstr or hasattr(obj, 'external_url')` selects the URL as recorded" if ok else
+           f"the raw-URL branch is selected by `{t}`: an external project given by a local path has a file-system URL, "
+           f"which then gets the '../' prefix of local pages and points nowhere", py.nloc(raw))
+
+
 RULES = [
+    RuleSpec("C16.R6", r6_fresh_objects_and_node_urls, "one object per exported entity; external node URLs unchanged", floor=3),
     RuleSpec("C16.R1", r1_error_coverage, "exception coverage of the external load path", floor=4),
     RuleSpec("C16.R2", r2_tables_agree, "export/import tables agree", floor=12),
     RuleSpec("C16.R3", r3_local_precedence, "local entities take precedence over external ones", floor=2),
